@@ -135,3 +135,12 @@ pub fn probe_notable_setauth() {
     assert!(out[0] == b[0], "first byte unchanged");
     forget(x);
 }
+
+/// full C11 host harness body at N=4 with copy_from_slice stubbed by a loop
+#[cfg_attr(kani, kani::proof)]
+#[cfg_attr(kani, kani::unwind(11))]
+#[cfg_attr(kani, kani::stub(std::vec::Vec::resize, crate::stubs::vec_resize))]
+#[cfg_attr(kani, kani::stub(<[u8]>::copy_from_slice, crate::stubs::copy_from_slice_loop))]
+pub fn probe_c11_copyloop() {
+    crate::c11::c11_set_host_n4()
+}
